@@ -328,6 +328,12 @@ def _l_append(ctx, self, x):
     ctx.write_event(self, 'append')
 
 
+@lib('method:Seq.append')
+def _seq_append(ctx, self, x):
+    self.append(x)
+    ctx.write_event(self, 'append')
+
+
 @lib('method:list.extend')
 def _l_extend(ctx, self, xs):
     self.items.extend(items_of(ctx, xs))
@@ -978,7 +984,7 @@ def np_max(ctx, a, axis=None):
         raise Unsupported('max axis')
     it = list(_concrete_indices(a.shape)) if not any(S.is_z3(d) for d in a.shape) else None
     if it is None:
-        raise Unsupported('max over symbolic extent')
+        return _max_symbolic(ctx, a, 'max')
     if not it:
         raise Raised('ValueError', 'zero-size array to reduction operation')
     out = a.at(it[0])
@@ -1336,3 +1342,40 @@ def np_ifft2(ctx, a, s=None, axes=None, norm=None):
     a = arr(ctx, a)
     ctx.__dict__.setdefault('ghost_fft_calls', []).append({'fn': 'ifft2', 'norm': norm, 'input': a.snapshot()})
     return A.fresh_array(ctx, 'ifft2', a.shape, 'complex')
+
+
+@lib('math.factorial')
+def _factorial(ctx, n):
+    n = A.unwrap0(n)
+    if S.is_z3(n):
+        raise Unsupported('factorial of a symbolic integer')
+    import math
+    if n < 0:
+        raise Raised('ValueError', 'factorial of negative')
+    return math.factorial(int(n))
+alias('factorial', 'math.factorial')
+
+ANGLE = z3.Function('f_angle', z3.RealSort(), z3.RealSort(), z3.RealSort())
+
+
+@lib('numpy.angle', 'abstract')
+def np_angle(ctx, v):
+    f = lambda x: ANGLE(S.zreal(S.cx(x).re), S.zreal(S.cx(x).im))
+    if isinstance(v, Arr):
+        return A.elementwise(ctx, f, [v], dtype='float')
+    return f(v)
+
+
+def _max_symbolic(ctx, a, kind):
+    """np.max / np.min over a symbolic extent: a fresh value with the defining axioms (library contract)."""
+    snap = a.snapshot()
+    mx = ctx.fresh_real('np_' + kind)
+    idx = [z3.Int(ctx._name('mxi')) for _ in a.shape]
+    rng = z3.And(*[z3.And(i >= 0, i < S.z(d)) for i, d in zip(idx, a.shape)])
+    v = S.z(S.num(snap.at(tuple(idx))))
+    v = z3.ToReal(v) if z3.is_int(v) else v
+    bound = (v <= mx) if kind == 'max' else (v >= mx)
+    ctx.assume(z3.ForAll(idx, z3.Implies(rng, bound)), 'lib[exact]:np.%s over a symbolic extent' % kind, axiom=True)
+    ctx.assume(z3.Exists(idx, z3.And(rng, v == mx)), axiom=True)
+    ctx.ghost_max = mx
+    return mx
